@@ -209,6 +209,10 @@ fn pou_vars_and_body(rng: &mut Rng, n: &Names, is_function: bool, own: &str) -> 
     }
     vars.push_str("    cnt : INT;\n");
     locals.push("cnt".into());
+    if !is_function && rng.chance(1, 8) {
+        // a string literal that spans a line break
+        vars.push_str("    two : STRING := 'first\n second';\n");
+    }
     if !is_function && !n.no_comments && rng.chance(1, 6) {
         // a string literal that looks like it holds a comment (it contains `*)`, so not in worlds
         // that plant an unterminated comment)
@@ -469,10 +473,14 @@ pub fn gen_faulty(rng: &mut Rng, size: usize, kind: &str) -> World {
         ),
         "subrange_order" => push(&mut decls, decl("fault", &format!("Sr{k}"), format!("TYPE\n  Sr{k} : INT (10..{});\nEND_TYPE\n", rng.below(10)))),
         "enum_dup_value" => push(&mut decls, decl("fault", &format!("En{k}"), format!("TYPE\n  En{k} : (X{k}, Y{k}, x{k}) := X{k};\nEND_TYPE\n"))),
-        "undefined_var" => push(
-            &mut decls,
-            decl("fault", &format!("Fb{k}"), format!("FUNCTION_BLOCK Fb{k}\n  VAR\n    cnt : INT;\n  END_VAR\n  cnt := nowhere{k} + 1;\nEND_FUNCTION_BLOCK\n")),
-        ),
+        "undefined_var" => {
+            // the offending identifier sits mid-line, or at the very first column of its line
+            let stmt = if rng.chance(1, 2) { format!("  cnt := nowhere{k} + 1;") } else { format!("nowhere{k} := cnt;") };
+            push(
+                &mut decls,
+                decl("fault", &format!("Fb{k}"), format!("FUNCTION_BLOCK Fb{k}\n  VAR\n    cnt : INT;\n  END_VAR\n{stmt}\nEND_FUNCTION_BLOCK\n")),
+            );
+        }
         "const_no_init" => {
             // sometimes the constant carries the name of a configuration global that other blocks
             // declare VAR_EXTERNAL CONSTANT
@@ -683,6 +691,7 @@ pub fn class_text(class: &str, slot: usize) -> String {
         ),
         "lexical" => format!("FUNCTION_BLOCK Lex{slot}\n  VAR\n    cnt : INT;\n  END_VAR\n  cnt := cnt ? 1;\nEND_FUNCTION_BLOCK\n"),
         "syntax" => format!("FUNCTION_BLOCK Syn{slot}\n  VAR\n    cnt : INT;\n  END_VAR\n  cnt := ;\nEND_FUNCTION_BLOCK\n"),
+        "semantic" if slot % 2 == 1 => format!("FUNCTION_BLOCK Sem{slot}\n  VAR\n    cnt : INT;\n  END_VAR\nnowhere := cnt + 1;\nEND_FUNCTION_BLOCK\n"),
         "semantic" => format!("FUNCTION_BLOCK Sem{slot}\n  VAR\n    cnt : INT;\n  END_VAR\n  cnt := nowhere + 1;\nEND_FUNCTION_BLOCK\n"),
         // needs the enumeration declared by the `valid` text of the *other* slot
         "depends" => {
